@@ -249,7 +249,7 @@ impl XFuncSpec {
         })
     }
 
-    fn arg_len_range(&self) -> (usize, usize) {
+    pub(crate) fn arg_len_range(&self) -> (usize, usize) {
         let max = self.params.len();
         let min = self.params.iter().take_while(|a| a.required).count();
         (min, max)
